@@ -8,7 +8,7 @@
 From Coq Require Import ZArith Bool List Lia.
 From F2G Require Import Go.GoFloat gen.Consts gen.ExecConsts Model.Exec.
 From F2G Require Import Proofs.ExecPerm Proofs.ExecCmd Proofs.ExecShape Proofs.CtrlLinks.
-From F2G Require Drv.Perm Drv.Exec.
+From F2G Require Drv.Perm Drv.Exec Drv.ExecHist.
 Import ListNotations.
 Open Scope Z_scope.
 
@@ -91,12 +91,28 @@ Proof.
     exfalso. eapply validate_never_panics. exact V.
 Qed.
 
+Lemma model_bare_holds failing s api l q : Bare_holds (bare_obs failing s api l q).
+Proof.
+  unfold bare_obs. destruct q as [q'|].
+  - destruct (model_call_holds failing s api q') as [H _]. split; [exact H|].
+    unfold call_obs. destruct (exec_call s q') as [f u g m|e| |] eqn:X; cbn [ob_res].
+    + destruct (memb f failing && negb (api =? 5)); discriminate.
+    + destruct (api =? 5); discriminate.
+    + destruct (api =? 5); discriminate.
+    + exfalso. eapply exec_call_never_panics. exact X.
+  - destruct (check_file s l) eqn:C.
+    + split; cbn [ob_starts ob_res]; [constructor|destruct (api =? 5); discriminate].
+    + split; cbn [ob_starts ob_res]; [constructor|destruct (api =? 5); discriminate].
+    + exfalso. eapply check_file_never_panics. exact C.
+Qed.
+
 Lemma model_run_holds failing ops : forall s, Holds_ops ops (model_run failing s ops).
 Proof.
   induction ops as [|o r IH]; intros s; [reflexivity|].
   destruct o; cbn [model_run model_obs Holds_ops]; try apply IH.
   - split; [apply model_call_holds|apply IH].
   - split; [apply model_validate_holds|apply IH].
+  - split; [apply model_bare_holds|apply IH].
   - split; [apply model_call_holds|apply IH].
 Qed.
 
@@ -215,3 +231,20 @@ Proof.
   unfold bound_ms. unfold timeout_ok in TL. rewrite E in W. destruct (c_api c =? 0); lia.
 Qed.
 End ExecLink.
+
+(* ================================================================== *)
+(* driver exechist: a history is judged call by call                  *)
+(* ================================================================== *)
+Module ExecHistLink.
+Import F2G.Drv.ExecHist.
+
+Theorem exechist_no_false_alarm (c : case) :
+  Forall ExecLink.case_wf c -> mismatch c = false -> holdsb c = true.
+Proof.
+  unfold mismatch, holdsb. intros W M. apply forallb_forall. intros x Hx.
+  apply ExecLink.exec_no_false_alarm.
+  - rewrite Forall_forall in W. auto.
+  - destruct (Drv.Exec.mismatch x) eqn:E; [|reflexivity].
+    assert (existsb Drv.Exec.mismatch c = true) by (apply existsb_exists; exists x; auto). congruence.
+Qed.
+End ExecHistLink.
